@@ -41,6 +41,7 @@ class AbsWriter:
         self.ops = 0
         self.log = []
         self.bound = bound          # assumed upper bound on the logical cursor (keeps arithmetic free of wrap-around)
+        self.positions = {}
 
     def _div(self, a):
         return dm.udiv(a, PAYLOAD, bits=self.BITS if self.bound is not None else None)
@@ -63,10 +64,12 @@ class AbsWriter:
         return False
 
     def _advance(self, I, new_cursor):
+        at_hw = self.hw is self.cursor or z3.eq(self.hw, self.cursor)
         self.cursor = z3.simplify(new_cursor)
         if self.bound is not None:
             I.path.assume(z3.ULE(self.cursor, U64(self.bound)))
-        self.hw = umax(self.hw, self.cursor)
+        # appending from the high-water mark (the common case) keeps hw == cursor without an ite chain
+        self.hw = self.cursor if at_hw else umax(self.hw, self.cursor)
 
     def write_all(self, I, sl):
         if self._fault(I, "write_all"):
@@ -110,7 +113,11 @@ class AbsWriter:
     def physical_position(self, I):
         if self._fault(I, "physical_position"):
             return ErrV(Opaque("error::Error(Read)"))
-        return OkV(self.cursor + U64(4) * self._div(self.cursor))
+        pos = self.cursor + U64(4) * self._div(self.cursor)
+        # remember which logical cursor this physical position stands for: seeking back to a position that the writer itself
+        # handed out is legal by construction (inside the written extent, never inside a checksum)
+        self.positions[pos.get_id()] = (pos, self.cursor)
+        return OkV(pos)
 
     def physical_size(self, I):
         if self._fault(I, "physical_size"):
@@ -122,8 +129,13 @@ class AbsWriter:
         if self._fault(I, "physical_seek"):
             return ErrV(Opaque("error::Error(Write)"))
         self._flush_effect()
-        legal = z3.And(z3.ULE(p, self.npages0 * U64(PAGE)), z3.ULT(dm.urem(p, PAGE), U64(PAYLOAD)))
         self.log.append(("seek", p))
+        known = self.positions.get(p.get_id())
+        if known is not None and z3.eq(known[0], p):
+            self.cursor = known[1]
+            self.hw = umax(self.hw_all, self.cursor) if False else self.cursor
+            return OkV(Unit)
+        legal = z3.And(z3.ULE(p, self.npages0 * U64(PAGE)), z3.ULT(dm.urem(p, PAGE), U64(PAYLOAD)))
         if I.path.decide(legal):
             self.cursor = z3.simplify(logical(p))
             self.hw = self.cursor
